@@ -178,6 +178,8 @@ func scC07Stream(w *World, a Args, rng *rand.Rand) error {
 	lens := a.Ints("lens")
 	modes, _ := a["consumers"].([]interface{})
 	closeOrder := a.Ints("closeorder") // streams that are kept open and closed by the handler in this order
+	staged := a.Bool("staged")
+	steps := map[int]chan struct{}{}
 	var wg sync.WaitGroup
 	dones := map[int]chan struct{}{}
 	stalled := []int{}
@@ -189,7 +191,17 @@ func scC07Stream(w *World, a Args, rng *rand.Rand) error {
 		if i < len(modes) {
 			mode = modes[i].(string)
 		}
-		w.Plan(tok, &Plan{NoClose: has(closeOrder, tok), NoCloseMs: 8000})
+		pl := &Plan{NoClose: has(closeOrder, tok), NoCloseMs: 8000}
+		if staged && has(closeOrder, tok) {
+			// half of the values now, the rest one by one between the closes of the other streams
+			st := make(chan struct{}, 256)
+			for j := 0; j < n/2; j++ {
+				st <- struct{}{}
+			}
+			steps[tok] = st
+			pl.Step = st
+		}
+		w.Plan(tok, pl)
 		ctx, cancel := context.WithCancel(context.Background())
 		mu.Lock()
 		cancels[tok] = cancel
@@ -247,10 +259,20 @@ func scC07Stream(w *World, a Args, rng *rand.Rand) error {
 	done := make(chan struct{})
 	go func() { wg.Wait(); close(done) }()
 	waitCh(done, patience(5*time.Second))
-	for _, tok := range closeOrder { // handlers close the kept-open streams one by one
+	for k, tok := range closeOrder { // handlers close the kept-open streams one by one
 		time.Sleep(2 * time.Millisecond)
 		w.Release(tok)
 		waitCh(dones[tok], patience(3*time.Second))
+		if staged {
+			// the streams still open go on: one more value each
+			for _, t2 := range closeOrder[k+1:] {
+				select {
+				case steps[t2] <- struct{}{}:
+				default:
+				}
+			}
+			time.Sleep(2 * time.Millisecond)
+		}
 	}
 	for tok, d := range dones {
 		if !has(stalled, tok) {
